@@ -34,10 +34,10 @@ def plan(tier, seed):
 
 def thresholds(tier):
   t = {"design_backend_pairs": 100, "texts_compared": 300, "module_tables_checked": 100, "standalone_bodies_compared": 200,
-       "parameterisations": 300, "hashed_module_names": 20, "full_names_checked": 150, "instance_statements_checked": 120, "multi_unit_texts_compared": 100, "reserved_word_probes": 1500, "reserved_word_probe_controls_translated": 100}
+       "parameterisations": 300, "hashed_module_names": 20, "full_names_checked": 150, "instance_statements_checked": 120, "multi_unit_texts_compared": 100, "duplicate_module_probes": 6, "duplicate_module_probe_controls_clean": 3, "reserved_word_probes": 1500, "reserved_word_probe_controls_translated": 100}
   if tier == "thorough":
     t = {k: v * 8 for k, v in t.items()}
-    t["multi_unit_texts_compared"] = 100; t["reserved_word_probes"] = 1500; t["reserved_word_probe_controls_translated"] = 100       # same size in both tiers
+    t["multi_unit_texts_compared"] = 100; t["duplicate_module_probes"] = 6; t["duplicate_module_probe_controls_clean"] = 3; t["reserved_word_probes"] = 1500; t["reserved_word_probe_controls_translated"] = 100       # same size in both tiers
   return t
 
 
@@ -425,6 +425,134 @@ def run_multiunit_probe(sh):
     sys.modules.pop("c13multi_mod", None)
 
 
+DUP_SRC = """
+from pymtl3 import *
+from pymtl3.passes.backends.verilog import VerilogPlaceholder, VerilogPlaceholderPass
+class VDecr(VerilogPlaceholder, Component):
+  def construct(s, nbits=8):
+    s.in_ = InPort(nbits); s.out = OutPort(nbits)
+    s.set_metadata(VerilogPlaceholderPass.src_file, VFILE)
+    s.set_metadata(VerilogPlaceholderPass.top_module, 'VDecr')
+    s.set_metadata(VerilogPlaceholderPass.params, {'nbits': nbits})
+class VDecrWide(VDecr):               # the same Verilog module behind a second placeholder class (another default)
+  def construct(s, nbits=16):
+    super().construct(nbits)
+class TwoWrappers(Component):
+  def construct(s, second):
+    s.i8 = InPort(8); s.o8 = OutPort(8); s.i16 = InPort(16); s.o16 = OutPort(16)
+    s.a = VDecr(); s.b = VDecrWide() if second == 'subclass' else VDecr(16)
+    s.a.in_ //= s.i8; s.o8 //= s.a.out; s.b.in_ //= s.i16; s.o16 //= s.b.out
+class Incr(Component):
+  def construct(s, k=1):
+    s.in_ = InPort(8); s.out = OutPort(8)
+    @update
+    def up_incr():
+      s.out @= s.in_ + k
+class Stage(Component):
+  def construct(s):
+    s.in_ = InPort(8); s.out = OutPort(8)
+    s.r = Incr(1)
+    s.r.in_ //= s.in_; s.out //= s.r.out
+def mk_stagev(src, topmod):
+  class StageV(VerilogPlaceholder, Component):
+    def construct(s):
+      s.in_ = InPort(8); s.out = OutPort(8)
+      s.set_metadata(VerilogPlaceholderPass.src_file, src)
+      s.set_metadata(VerilogPlaceholderPass.top_module, topmod)
+  return StageV
+class Reuse(Component):
+  def construct(s, StageV, k):
+    s.in_ = InPort(8); s.out = OutPort(8)
+    s.st = StageV(); s.r = Incr(k)
+    s.st.in_ //= s.in_; s.r.in_ //= s.st.out; s.out //= s.r.out
+InnerA = mk_bitstruct('Inner', {'x': Bits8})
+InnerB = mk_bitstruct('Inner', {'x': Bits8, 'y': Bits4})
+PktA = mk_bitstruct('Pkt', {'hdr': InnerA, 'y': Bits4})          # y next to the header
+PktB = mk_bitstruct('Pkt', {'hdr': InnerB})                      # y inside the header
+PktC = mk_bitstruct('Pkt', {'hdr': InnerA, 'z': Bits4})          # control: another field name
+class GetY(Component):
+  def construct(s, T):
+    s.in_ = InPort(T); s.out = OutPort(4)
+    if T is PktA: s.out //= s.in_.y
+    elif T is PktB: s.out //= s.in_.hdr.y
+    else: s.out //= s.in_.z
+class Nest(Component):
+  def construct(s, TB):
+    s.ia = InPort(PktA); s.ib = InPort(TB); s.oa = OutPort(4); s.ob = OutPort(4)
+    s.a = GetY(PktA); s.b = GetY(TB)
+    s.a.in_ //= s.ia; s.b.in_ //= s.ib; s.oa //= s.a.out; s.ob //= s.b.out
+"""
+
+
+def _preprocess(text):
+  defined, stack, out = set(), [], []
+  for line in text.splitlines():
+    w = line.split()
+    if w[:1] == ["`ifndef"]: stack.append(w[1] not in defined)
+    elif w[:1] == ["`ifdef"]: stack.append(w[1] in defined)
+    elif w[:1] == ["`else"]: stack[-1] = not stack[-1]
+    elif w[:1] == ["`endif"]: stack.pop()
+    elif w[:1] == ["`define"] and all(stack): defined.add(w[1])
+    elif all(stack): out.append(line)
+  return "\n".join(out)
+
+
+def run_dupmodule_probes(sh):
+  """probe streams for the listed findings F-N9, F-N10, F-N11: every module / typedef is defined exactly once in the text a tool
+  sees after preprocessing, and two instances share a module only if their bodies agree - in designs with (a) two placeholder
+  classes behind one Verilog module, (b) an earlier translation result used as a placeholder next to a component it already
+  contains, (c) two struct types of one name whose flattened field lists coincide.  Each has a control design that is clean"""
+  import importlib.util
+  from pymtl3.passes.backends.verilog import VerilogPlaceholderPass, VerilogTranslationPass as P
+  vfile = os.path.join(os.getcwd(), "VDecr.v")
+  with open(vfile, "w") as f: f.write(VDECR_V)
+  pyfile = os.path.join(os.getcwd(), "c13dup_mod.py")
+  with open(pyfile, "w") as f: f.write(DUP_SRC.replace("VFILE", repr(vfile)))
+  spec = importlib.util.spec_from_file_location("c13dup_mod", pyfile)
+  mod = importlib.util.module_from_spec(spec); sys.modules["c13dup_mod"] = mod; spec.loader.exec_module(mod)
+  def tr(top, placeholder=True):
+    top.elaborate()
+    if placeholder: top.apply(VerilogPlaceholderPass())
+    top.set_metadata(P.enable, True); top.apply(P())
+    with open(top.get_metadata(P.translated_filename)) as f: return f.read(), top.get_metadata(P.translated_filename), top.get_metadata(P.translated_top_module)
+  def dups(text):
+    mods = re.findall(r"^\s*module\s+(\w+)", _preprocess(text), re.M)
+    return sorted(m for m in set(mods) if mods.count(m) > 1)
+  try:
+    # (a) two placeholder classes, one Verilog module
+    for second in ("subclass", "same-class"):
+      text, _, _ = tr(mod.TwoWrappers(second)); sh.count("duplicate_module_probes")
+      d = dups(text)
+      if d:
+        sh.violation("module-defined-more-than-once-after-preprocessing", {"design": "two placeholders for the Verilog module VDecr, the second through " + second, "modules": d,
+                     "guards": re.findall(r"^`ifndef (\w+)", text, re.M)}, mechanism="placeholder-source-guard-keyed-by-python-class-name" if second == "subclass" else None, case=("dup", "wrappers", second))
+      elif second == "same-class": sh.count("duplicate_module_probe_controls_clean")
+    # (b) an earlier translation result as a placeholder next to a component it contains
+    t0, f0, m0 = tr(mod.Stage(), placeholder=False)
+    SV = mod.mk_stagev(os.path.join(os.getcwd(), f0), m0)
+    for k in (1, 2):
+      text, _, _ = tr(mod.Reuse(SV, k)); sh.count("duplicate_module_probes")
+      d = dups(text)
+      if d:
+        sh.violation("module-defined-more-than-once-after-preprocessing", {"design": f"Stage translated earlier and used as a placeholder next to Incr({k})", "modules": d},
+                     mechanism="earlier-translation-result-as-placeholder-repeats-shared-modules" if k == 1 else None, case=("dup", "reuse", k))
+      elif k == 2: sh.count("duplicate_module_probe_controls_clean")
+    # (c) two struct types of one name whose flattened field lists coincide
+    for nm, TB in (("same-flat-fields", mod.PktB), ("control", mod.PktC)):
+      text, _, _ = tr(mod.Nest(TB), placeholder=False); sh.count("duplicate_module_probes")
+      inst = dict((i, m) for m, i in re.findall(r"^\s*(\w+) (a|b)\s*\n\s*\(", text, re.M))
+      ports = dict((p_, t) for t, p_ in re.findall(r"input\s+(?:logic\s+)?(\w+) (ia|ib)\b", text))
+      if inst.get("a") == inst.get("b") or (ports.get("ia") and ports.get("ia") == ports.get("ib")):
+        sh.violation("instances-with-different-bodies-share-one-module-name", {"design": "GetY(PktA) reads in_.y, GetY(PktB) reads in_.hdr.y; Pkt{hdr:Inner{x},y} / Pkt{hdr:Inner{x,y}}",
+                     "instances": inst, "port_types": ports}, mechanism="struct-type-name-loses-nesting-level" if nm != "control" else None, case=("dup", "nest", nm))
+      elif nm == "control": sh.count("duplicate_module_probe_controls_clean")
+  except Exception as e:
+    import traceback
+    sh.inconclusive("dupmodule-probe-harness:" + type(e).__name__); sh.sample({"dupmodule_probe_error": traceback.format_exc()[-800:]})
+  finally:
+    sys.modules.pop("c13dup_mod", None)
+
+
 def run_keyword_probe(sh):
   """identifiers are legal: a signal / block / loop variable named like a reserved word of IEEE 1800-2017 (list written down from
   Annex B in vlib/svkeywords.py, not taken from pymtl3's table) is either refused by the translator or renamed - it never reaches
@@ -473,6 +601,7 @@ NEWER_KEYWORDS = set("accept_on checker endchecker eventually global implements 
 def run_shard(sh):
   if sh.params["part"] == 0: run_subtree_probe(sh)
   if sh.params["part"] == 1: run_multiunit_probe(sh)
+  if sh.params["part"] == 2: run_dupmodule_probes(sh)
   run_keyword_probe(sh)
   rng = sh.rng("c13")
   items = []
